@@ -380,16 +380,17 @@ func uniformBelow(t *rapid.T, n int, l string) int {
 // listener to remove, a HTTP listener to edit, a link to disconnect); the rest of the history
 // follows.
 func withFault(t *rapid.T, h History, nreg int, allowLockHeld bool) History {
-	if uniformBelow(t, 3, "fault-bit") != 0 && os.Getenv("VERIF_C10_FAULT_ALWAYS") == "" { // (development aid for TestC10Survey)
+	if uniformBelow(t, 3, "fault-bit") != 0 && os.Getenv("VERIF_C10_FAULT") != "always" || os.Getenv("VERIF_C10_FAULT") == "never" { // (the variable is a development aid)
 		return h
 	}
 	var fc faultClass
-	switch b := uniformBits(t, 8, "fault-how-bit"); {
-	case b == 0 && allowLockHeld:
-		fc = faultClass{Fault{How: "lock-held"}, []string{"lremove", "reg", "ladd", "markdead"}[uniformBits(t, 2, "fault-kind-bit")]}
-	case b <= 48:
-		fc = faultClass{Fault{How: "readonly"}, wholeDBKinds[uniformBelow(t, len(wholeDBKinds), "fault-kind-bit")]}
+	switch b := uniformBits(t, 9, "fault-how-bit") + 1; { // (shrinking moves towards 1 = readonly, away from the 5 s cases)
+	case b == 512 && allowLockHeld:
+		// few: every write statement of the operation waits for the 5 s busy timeout (operations with one write statement only)
+		fc = faultClass{Fault{How: "lock-held"}, []string{"lremove", "reg", "ladd"}[uniformBelow(t, 3, "fault-kind-bit")]}
 	case b <= 96:
+		fc = faultClass{Fault{How: "readonly"}, wholeDBKinds[uniformBelow(t, len(wholeDBKinds), "fault-kind-bit")]}
+	case b <= 192:
 		fc = faultClass{Fault{How: "lock-released"}, wholeDBKinds[uniformBelow(t, len(wholeDBKinds), "fault-kind-bit")]}
 	default:
 		fc = triggerClasses[uniformBelow(t, len(triggerClasses), "fault-class-bit")]
@@ -478,7 +479,13 @@ func underFaultSig(h History, v *core.Violation, rerunWithout func(History) *cor
 		case strings.HasSuffix(p, "-differs") && strings.HasPrefix(v.Sig, "agent|"):
 			p = "recorded-value-differs"
 		}
-		if len(parts) < 4 {
+		if p == "https" {
+			p = "http" // one listener kind as far as the database is concerned
+		}
+		if len(parts) > 1 && parts[len(parts)-1] == "http" && (parts[len(parts)-2] == "not-restored") {
+			break // the name class of a HTTPS listener that is not restored
+		}
+		if len(parts) < 5 {
 			parts = append(parts, p)
 		}
 	}
